@@ -1,1 +1,237 @@
-From BS Require Import Model.Base Model.Num Model.LibVal Gen.ArgSpecs Model.LibSeq.
+(* Proofs/C15.v — array, object and string functions obey their sequence / map / string contracts. *)
+From Coq Require Import Lia ZifyBool SpecFloat.
+From BS Require Import Model.Base Model.Num Model.LibVal Gen.ArgSpecs Model.LibSeq Proofs.BaseFacts.
+Local Open Scope Z_scope.
+
+(* ====================================================================== heap facts *)
+Lemma hget_hset_same : forall h l c, (l < length h)%nat -> hget (hset h l c) l = Some c.
+Proof. unfold hget. induction h; intros [|l] c H; simpl in *; try lia; auto. apply IHh. lia. Qed.
+
+Lemma hget_hset_other : forall h l l' c, l <> l' -> hget (hset h l c) l' = hget h l'.
+Proof. unfold hget. induction h; intros [|l] [|l'] c H; simpl in *; auto; try congruence. Qed.
+
+Lemma hset_length : forall h l c, length (hset h l c) = length h.
+Proof. induction h; intros [|l] c; simpl; auto. Qed.
+
+Lemma hget_Some_lt : forall h l c, hget h l = Some c -> (l < length h)%nat.
+Proof. unfold hget. intros. apply nth_error_Some. congruence. Qed.
+
+Lemma hget_app_old : forall h c l, (l < length h)%nat -> hget (h ++ [c]) l = hget h l.
+Proof. unfold hget. intros. apply nth_error_app1. auto. Qed.
+
+Lemma hget_app_new : forall h c, hget (h ++ [c]) (length h) = Some c.
+Proof. unfold hget. intros. rewrite nth_error_app2 by lia. rewrite Nat.sub_diag. reflexivity. Qed.
+
+Lemma hget_fresh : forall h, hget h (length h) = None.
+Proof. unfold hget. intros. apply nth_error_None. lia. Qed.
+
+(* ====================================================================== shape of every call
+   what a call can do to the heap: nothing, overwrite the cell of its FIRST argument, or allocate one cell *)
+Definition first_loc (va : list varg) : option loc :=
+  match va with AV (VArr l) :: _ => Some l | AV (VObj l) :: _ => Some l | _ => None end.
+Definition is_fail (r : libres) : bool := match r with LOk _ => false | _ => true end.
+
+Inductive step_shape (h : heap) (floc : option loc) (r : libres) (h' : heap) : Prop :=
+| SS_same : h' = h -> step_shape h floc r h'
+| SS_mut : forall l c, floc = Some l -> (l < length h)%nat -> h' = hset h l c -> is_fail r = false -> step_shape h floc r h'
+| SS_alloc : forall c, h' = h ++ [c] -> (r = LOk (VArr (length h)) \/ r = LOk (VObj (length h))) -> step_shape h floc r h'.
+
+Definition kshape (k : kfun) : Prop := forall h va r h', k h va = (r, h') -> step_shape h (first_loc va) r h'.
+
+Ltac inv H := inversion H; subst; clear H.
+Ltac break_match_hyp :=
+  match goal with
+  | H : context [match ?x with _ => _ end] |- _ => destruct x eqn:?
+  end.
+Ltac kcrush :=
+  repeat first
+    [ match goal with
+      | H : (_, _) = (_, _) |- _ => inv H
+      | H : stuck _ = (_, _) |- _ => unfold stuck in H
+      | H : (let (_, _) := halloc _ _ in _) = _ |- _ => unfold halloc in H
+      end
+    | break_match_hyp ].
+
+Ltac shape_done :=
+  first
+    [ apply SS_same; reflexivity
+    | eapply SS_alloc; [reflexivity | auto]
+    | eapply SS_mut; [reflexivity | eapply hget_Some_lt; eassumption | reflexivity | reflexivity] ].
+Ltac kshape_tac f := unfold kshape, f; intros h va r h' H; kcrush; simpl; shape_done.
+
+Lemma shape_arrayCopy : kshape k_arrayCopy. Proof. kshape_tac k_arrayCopy. Qed.
+Lemma shape_arrayDelete : kshape k_arrayDelete. Proof. kshape_tac k_arrayDelete. Qed.
+Lemma shape_arrayExtend : kshape k_arrayExtend. Proof. kshape_tac k_arrayExtend. Qed.
+Lemma shape_arrayGet : kshape k_arrayGet. Proof. kshape_tac k_arrayGet. Qed.
+Lemma shape_arrayIndexOf : kshape k_arrayIndexOf. Proof. kshape_tac k_arrayIndexOf. Qed.
+Lemma shape_arrayLastIndexOf : kshape k_arrayLastIndexOf. Proof. kshape_tac k_arrayLastIndexOf. Qed.
+Lemma shape_arrayLength : kshape k_arrayLength. Proof. kshape_tac k_arrayLength. Qed.
+Lemma shape_arrayNewSize : kshape k_arrayNewSize. Proof. kshape_tac k_arrayNewSize. Qed.
+Lemma shape_arrayPop : kshape k_arrayPop. Proof. kshape_tac k_arrayPop. Qed.
+Lemma shape_arrayPush : kshape k_arrayPush. Proof. kshape_tac k_arrayPush. Qed.
+Lemma shape_arraySet : kshape k_arraySet. Proof. kshape_tac k_arraySet. Qed.
+Lemma shape_arrayShift : kshape k_arrayShift. Proof. kshape_tac k_arrayShift. Qed.
+Lemma shape_arraySlice : kshape k_arraySlice. Proof. kshape_tac k_arraySlice. Qed.
+Lemma shape_objectAssign : kshape k_objectAssign. Proof. kshape_tac k_objectAssign. Qed.
+Lemma shape_objectCopy : kshape k_objectCopy. Proof. kshape_tac k_objectCopy. Qed.
+Lemma shape_objectDelete : kshape k_objectDelete. Proof. kshape_tac k_objectDelete. Qed.
+Lemma shape_objectGet : kshape k_objectGet. Proof. kshape_tac k_objectGet. Qed.
+Lemma shape_objectHas : kshape k_objectHas. Proof. kshape_tac k_objectHas. Qed.
+Lemma shape_objectKeys : kshape k_objectKeys. Proof. kshape_tac k_objectKeys. Qed.
+Lemma shape_objectSet : kshape k_objectSet. Proof. kshape_tac k_objectSet. Qed.
+Lemma shape_stringCharCodeAt : kshape k_stringCharCodeAt. Proof. kshape_tac k_stringCharCodeAt. Qed.
+Lemma shape_stringEndsWith : kshape k_stringEndsWith. Proof. kshape_tac k_stringEndsWith. Qed.
+Lemma shape_stringStartsWith : kshape k_stringStartsWith. Proof. kshape_tac k_stringStartsWith. Qed.
+Lemma shape_stringIndexOf : kshape k_stringIndexOf. Proof. kshape_tac k_stringIndexOf. Qed.
+Lemma shape_stringLastIndexOf : kshape k_stringLastIndexOf. Proof. kshape_tac k_stringLastIndexOf. Qed.
+Lemma shape_stringLength : kshape k_stringLength. Proof. kshape_tac k_stringLength. Qed.
+Lemma shape_stringRepeat : kshape k_stringRepeat. Proof. kshape_tac k_stringRepeat. Qed.
+Lemma shape_stringReplace : kshape k_stringReplace. Proof. kshape_tac k_stringReplace. Qed.
+Lemma shape_stringSlice : kshape k_stringSlice. Proof. kshape_tac k_stringSlice. Qed.
+Lemma shape_stringSplit : kshape k_stringSplit. Proof. kshape_tac k_stringSplit. Qed.
+Lemma shape_stringTrim : kshape k_stringTrim. Proof. kshape_tac k_stringTrim. Qed.
+Lemma shape_regexEscape : kshape k_regexEscape. Proof. kshape_tac k_regexEscape. Qed.
+Lemma shape_urlEncodeGen : forall f, kshape (k_urlEncodeGen f). Proof. intro f. kshape_tac k_urlEncodeGen. Qed.
+
+Lemma lib_table_shape : Forall (fun p => kshape (snd p)) lib_table.
+Proof.
+  unfold lib_table. repeat (apply Forall_cons; [simpl;
+    first [apply shape_arrayCopy | apply shape_arrayDelete | apply shape_arrayExtend | apply shape_arrayGet | apply shape_arrayIndexOf | apply shape_arrayLastIndexOf | apply shape_arrayLength | apply shape_arrayNewSize | apply shape_arrayPop | apply shape_arrayPush | apply shape_arraySet | apply shape_arrayShift | apply shape_arraySlice | apply shape_objectAssign | apply shape_objectCopy | apply shape_objectDelete | apply shape_objectGet | apply shape_objectHas | apply shape_objectKeys | apply shape_objectSet | apply shape_stringCharCodeAt | apply shape_stringEndsWith | apply shape_stringStartsWith | apply shape_stringIndexOf | apply shape_stringLastIndexOf | apply shape_stringLength | apply shape_stringRepeat | apply shape_stringReplace | apply shape_stringSlice | apply shape_stringSplit | apply shape_stringTrim | apply shape_regexEscape | apply shape_urlEncodeGen] |]). apply Forall_nil.
+Qed.
+
+(* ---- the value a failing call returns is the one the generated table documents ------------- *)
+Definition failure_of (f : str) (args : list value) : value :=
+  match assoc_spec f gen_arg_specs with Some (_, fv) => fail_value fv args | None => VNull end.
+
+Definition kfail (name : str) (k : kfun) : Prop :=
+  forall h va x h' args, k h va = (LArgsErr x, h') -> x = failure_of name args.
+Ltac kfail_tac f := unfold kfail, f; intros h va x h' args H; kcrush; reflexivity.
+
+Lemma lib_table_fail : Forall (fun p => kfail (fst p) (snd p)) lib_table.
+Proof.
+  unfold lib_table.
+  repeat (apply Forall_cons; [simpl;
+    unfold kfail; intros h va x h' args H;
+    first [ progress unfold k_urlEncodeGen in H | match type of H with ?k _ _ = _ => unfold k in H end ]; kcrush; reflexivity |]).
+  apply Forall_nil.
+Qed.
+
+(* ---- argument validation keeps the first (container) argument -------------------------------- *)
+Definition arg_loc (args : list value) : option loc :=
+  match args with VArr l :: _ => Some l | VObj l :: _ => Some l | _ => None end.
+
+Lemma vcons_ok : forall x r va, vcons x r = VOk va -> exists t, r = VOk t /\ va = x :: t.
+Proof. intros x [l| | |] va H; simpl in H; try discriminate. inv H. eauto. Qed.
+
+Lemma validate_first : forall h specs args va l,
+  args_validate h specs args = VOk va -> first_loc va = Some l -> arg_loc args = Some l.
+Proof.
+  intros h [|sp specs] args va l H F.
+  - destruct args; simpl in H; inv H. discriminate.
+  - destruct args as [|a args]; simpl in H.
+    + repeat break_match_hyp; try discriminate;
+        apply vcons_ok in H; destruct H as (t & _ & ->); simpl in F; try discriminate;
+        match goal with d : lit |- _ => destruct d; discriminate end.
+    + repeat break_match_hyp; try discriminate;
+        apply vcons_ok in H; destruct H as (t & _ & ->); simpl in F; try discriminate; simpl; auto.
+Qed.
+
+Lemma validated_cases : forall f args h k r h', validated f args h k = (r, h') ->
+  (h' = h /\ (r = LArgsErr (failure_of f args) \/ r = LRaise \/ r = LStuck)) \/
+  (exists specs fv va, assoc_spec f gen_arg_specs = Some (specs, fv) /\ args_validate h specs args = VOk va
+                       /\ k va (fail_value fv args) = (r, h')).
+Proof.
+  unfold validated, failure_of. intros f args h k r h' H.
+  destruct (assoc_spec f gen_arg_specs) as [[specs fv]|] eqn:E.
+  - destruct (args_validate h specs args) eqn:V.
+    + right. eauto 10.
+    + inv H. auto.
+    + inv H. auto.
+    + inv H. auto.
+  - inv H. auto.
+Qed.
+
+(* ---- the three functions that inspect their arguments by hand ---------------------------------- *)
+Lemma raw_arrayNew_shape : forall h args r h', raw_arrayNew h args = (r, h') ->
+  h' = h ++ [CArr args] /\ r = LOk (VArr (length h)).
+Proof. unfold raw_arrayNew, halloc. intros. inv H. auto. Qed.
+
+Lemma raw_objectNew_shape : forall h args r h', raw_objectNew h args = (r, h') ->
+  (exists kv, h' = h ++ [CObj kv] /\ r = LOk (VObj (length h))) \/ (h' = h /\ r = LArgsErr VNull).
+Proof. unfold raw_objectNew, halloc. intros. break_match_hyp; inv H; eauto. Qed.
+
+Lemma raw_stringFromCharCode_shape : forall h args r h', raw_stringFromCharCode h args = (r, h') ->
+  h' = h /\ (r = LRaise \/ r = LArgsErr VNull \/ exists s, r = LOk (VStr s)).
+Proof. unfold raw_stringFromCharCode. intros. repeat break_match_hyp; inv H; eauto. Qed.
+
+Lemma assoc_raw : forall f g, assoc f raw_table = Some g ->
+  (f = U "arrayNew" /\ g = raw_arrayNew) \/ (f = U "objectNew" /\ g = raw_objectNew)
+  \/ (f = U "stringFromCharCode" /\ g = raw_stringFromCharCode).
+Proof.
+  unfold raw_table, assoc. intros f g H.
+  destruct (str_eqb f (U "arrayNew")) eqn:E1; [apply str_eqb_eq in E1; inv H; auto|].
+  destruct (str_eqb f (U "objectNew")) eqn:E2; [apply str_eqb_eq in E2; inv H; auto|].
+  destruct (str_eqb f (U "stringFromCharCode")) eqn:E3; [apply str_eqb_eq in E3; inv H; auto|].
+  discriminate.
+Qed.
+
+(* ====================================================================== the call-level theorems *)
+Theorem lib_shape : forall f args h r h', lib f args h = (r, h') -> step_shape h (arg_loc args) r h'.
+Proof.
+  unfold lib. intros f args h r h' H.
+  destruct (assoc f raw_table) as [g|] eqn:R.
+  - apply assoc_raw in R. destruct R as [[-> ->]|[[-> ->]|[-> ->]]].
+    + apply raw_arrayNew_shape in H. destruct H as [-> ->]. eapply SS_alloc; eauto.
+    + apply raw_objectNew_shape in H. destruct H as [(kv & -> & ->)|[-> ->]]; [eapply SS_alloc; eauto | apply SS_same; auto].
+    + apply raw_stringFromCharCode_shape in H. destruct H as [-> _]. apply SS_same; auto.
+  - destruct (assoc f lib_table) as [k|] eqn:T.
+    + apply validated_cases in H. destruct H as [[-> _]|(specs & fv & va & E & V & K)]; [apply SS_same; auto|].
+      pose proof lib_table_shape as S. rewrite Forall_forall in S. specialize (S _ (assoc_In _ _ _ T)). simpl in S.
+      apply S in K. destruct K as [->|l c F L -> NF|c -> R'].
+      * apply SS_same; auto.
+      * eapply SS_mut; eauto. eapply validate_first; eauto.
+      * eapply SS_alloc; eauto.
+    + inv H. apply SS_same; auto.
+Qed.
+
+(* FRAME: only the passed container's location can change; every other location keeps its cell *)
+Theorem lib_frame : forall f args h r h' l, lib f args h = (r, h') ->
+  (l < length h)%nat -> arg_loc args <> Some l -> hget h' l = hget h l.
+Proof.
+  intros f args h r h' l H L N. apply lib_shape in H. destruct H as [->|l0 c F L0 -> _|c -> _]; auto.
+  - apply hget_hset_other. intro; subst; auto.
+  - apply hget_app_old; auto.
+Qed.
+
+(* FRESH: a call that allocates returns the one location that was not in the heap before; nothing else moves *)
+Theorem lib_alloc_fresh : forall f args h r h', lib f args h = (r, h') -> length h' <> length h ->
+  (r = LOk (VArr (length h)) \/ r = LOk (VObj (length h))) /\ hget h (length h) = None
+  /\ (exists c, h' = h ++ [c]) /\ forall l, (l < length h)%nat -> hget h' l = hget h l.
+Proof.
+  intros f args h r h' H N. apply lib_shape in H. destruct H as [->|l0 c F L0 -> _|c -> R]; try congruence.
+  - rewrite hset_length in N. congruence.
+  - repeat split; auto using hget_fresh; eauto. intros. apply hget_app_old; auto.
+Qed.
+
+(* FAILURE-ATOMIC: a failing call leaves the whole heap unchanged, and the value a ValueArgsError carries is the
+   failure value of the table generated from library.py *)
+Theorem lib_failure_atomic : forall f args h r h', lib f args h = (r, h') -> is_fail r = true -> h' = h.
+Proof.
+  intros f args h r h' H F. apply lib_shape in H. destruct H as [->|l0 c _ _ _ NF|c _ [->| ->]]; auto; simpl in *; congruence.
+Qed.
+
+Theorem lib_failure_value : forall f args h x h', lib f args h = (LArgsErr x, h') -> x = failure_of f args.
+Proof.
+  unfold lib. intros f args h x h' H.
+  destruct (assoc f raw_table) as [g|] eqn:R.
+  - apply assoc_raw in R. destruct R as [[-> ->]|[[-> ->]|[-> ->]]].
+    + apply raw_arrayNew_shape in H. destruct H as [_ H]. discriminate.
+    + apply raw_objectNew_shape in H. destruct H as [(kv & _ & H)|[_ H]]; [discriminate|]. inv H. reflexivity.
+    + apply raw_stringFromCharCode_shape in H. destruct H as [_ [H|[H|[s H]]]]; try discriminate. inv H. reflexivity.
+  - destruct (assoc f lib_table) as [k|] eqn:T.
+    + apply validated_cases in H. destruct H as [[_ [H|[H|H]]]|(specs & fv & va & E & V & K)]; try discriminate.
+      * inv H. reflexivity.
+      * pose proof lib_table_fail as S. rewrite Forall_forall in S. specialize (S _ (assoc_In _ _ _ T)). simpl in S.
+        eapply S; eauto.
+    + discriminate.
+Qed.
